@@ -3,7 +3,7 @@ import random
 
 from . import gen
 
-SYMS = ['BTC-USDT', 'ETH-USDT']
+SYMS = ['BTC-USDT', 'ETH-USDT', 'SOL-USDT']
 
 
 def random_script(rng: random.Random, exch_type: str, lattice=None, rich=True) -> dict:
@@ -56,7 +56,7 @@ def random_config(rng: random.Random, exch_type=None) -> dict:
 
 
 def random_session(rng: random.Random, *, minutes=None, fast=None, exch_type=None, nsym=None, tfs=None, warmup=None,
-                   data_tfs=None, family=None, rich=True) -> dict:
+                   data_tfs=None, family=None, rich=True, data_only=False) -> dict:
     cfg = random_config(rng, exch_type)
     nsym = nsym or rng.choice([1, 1, 2])
     tf_choices = tfs or ['1m', '3m', '5m', '15m']
@@ -79,6 +79,12 @@ def random_session(rng: random.Random, *, minutes=None, fast=None, exch_type=Non
         d = {'symbol': rng.choice(list(candles)), 'timeframe': rng.choice(dts)}
         if d not in dr and not any(r['symbol'] == d['symbol'] and r['timeframe'] == d['timeframe'] for r in routes):
             dr.append(d)
+    if data_only and dts:
+        # a symbol that is never traded: it only appears in data routes (no position, no orders of its own)
+        sym = SYMS[nsym]
+        candles[sym] = gen.random_spec(random.Random(base_seed + 77), minutes + warmup, fam)
+        for tf_ in rng.sample(dts, min(len(dts), rng.choice([1, 2]))):
+            dr.append({'symbol': sym, 'timeframe': tf_})
     # warm-up aligned to every route timeframe (as jesse's loader guarantees): a multiple of their lcm
     import math
     mx = 1
